@@ -131,6 +131,28 @@ def run_pipeline(s, prop, check_positions):
         reach()
     if not check_positions:
         return 'ok'
+    if scanned:
+        # the token API driven the other ways the class offers: get_token() alone, and peek_token() + get_token()
+        for drive in (0, 1):
+            loader = yaml.SafeLoader(s)
+            alt = []
+            try:
+                while True:
+                    if drive == 1:
+                        loader.peek_token()
+                    t = loader.get_token()
+                    if t is None:
+                        break
+                    alt.append(t)
+                    if isinstance(t, yaml.StreamEndToken):
+                        break
+            except Exception as e:
+                not_a_finding(e)
+                return fail(prop, 'TOKEN-API %s raises %s on an input that scans' % (['get_token()', 'peek_token() + get_token()'][drive], type(e).__name__), s=s)
+            finally:
+                loader.dispose()
+            if [(type(t).__name__, t.start_mark.index, t.end_mark.index) for t in alt] != [(type(t).__name__, t.start_mark.index, t.end_mark.index) for t in toks]:
+                return fail(prop, 'TOKEN-API %s yields another token sequence than scan()' % ['get_token()', 'peek_token() + get_token()'][drive], s=s)
     if scanned or toks:
         r = grammar.check_tokens([type(t).__name__ for t in toks], parsed)
         if r:
